@@ -317,7 +317,27 @@ fn custom_arity_case<T: Sc>(rng: &mut Rng, case: u64, out: &mut CaseOut, ops: &O
 fn builder_program_case(rng: &mut Rng, case: u64, out: &mut CaseOut, ops: &OpLog) {
     use crate::props::c15::{build_real, mutate, random_valid};
     use varpro::prelude::*;
+    use crate::props::c15::BCall;
     let mut p = random_valid(rng);
+    if rng.chance(0.35) {
+        // a stray derivative for ANOTHER model parameter directly after the derivatives of a function
+        // (the name pool contains names that are substrings of each other)
+        let funcs: Vec<usize> = p.calls.iter().enumerate().filter(|(_, c)| matches!(c, BCall::Function { .. })).map(|(i, _)| i).collect();
+        if let Some(&fi) = funcs.get(rng.below(funcs.len().max(1))) {
+            if let BCall::Function { params, arity } = p.calls[fi].clone() {
+                let others: Vec<String> = p.names.iter().filter(|n| !params.contains(n)).cloned().collect();
+                if !others.is_empty() {
+                    let mut end = fi + 1;
+                    while end < p.calls.len() && matches!(p.calls[end], BCall::Deriv { .. }) {
+                        end += 1;
+                    }
+                    let name = rng.pick(&others).clone();
+                    p.calls.insert(rng.int(fi + 1, end), BCall::Deriv { name, arity });
+                    out.count("builder_programs_with_a_stray_derivative");
+                }
+            }
+        }
+    }
     for _ in 0..rng.below(3) {
         mutate(rng, &mut p);
     }
